@@ -54,22 +54,39 @@ def gen_map(H, R, dt, L=4):
 
 
 @harness("C08", "elemental_step",
-         quick=[dict(N=2, m=1), dict(N=2, m=2)], thorough=[dict(N=2, m=1), dict(N=2, m=2), dict(N=2, m=3), dict(N=3, m=1)],
+         quick=[dict(N=2, m=1), dict(N=2, m=2), dict(N=2, m=2, form="lindblad_op")],
+         thorough=[dict(N=2, m=1), dict(N=2, m=2), dict(N=2, m=3), dict(N=3, m=1)] +
+                  [dict(N=2, m=k, form=f) for k in (1, 2) for f in ("lindblad_op", "lindblad_tensor")],
          functions=[F + ":EvolutionSuperOperator._elemental_step_TimeIndep", F + ":EvolutionSuperOperator.set_dense_dt",
                     F + ":EvolutionSuperOperator.__init__",
                     F_P + ":ReducedDensityMatrixPropagator.__propagate_short_exp_with_relaxation"],
          bound="N=2 (thorough 3), dense factor m<=2 (3); H real symmetric, relaxation tensor arbitrary with the C01 "
-               "identities, time step symbolic: the elementary step equals the order-4 Taylor map of exp(L dt/m) "
+               "identities or a Lindblad form in operator / tensor representation, time step symbolic: the elementary step equals the order-4 Taylor map of exp(L dt/m) "
                "and preserves trace and Hermiticity",
          out="truncation error of the expansion; time-dependent tensors")
-def elemental_step(cx, N, m):
+def elemental_step(cx, N, m, form="tensor"):
     from quantarhei.qm import EvolutionSuperOperator
     ham, RT, time, H, R, step = system(cx, N, 3, symbolic_step=True)
+    gen = None
+    if form != "tensor":
+        from harness.C02 import make_system
+        ham2, time2, RT, H, gen, extra = make_system(cx, N, 2, form)
+        ham._data = H
     eso = EvolutionSuperOperator(time, ham=ham, relt=RT)
     eso.set_dense_dt(m)
     A = eso._elemental_step_TimeIndep(0.0, eso.dense_time.step, 3)
     cx.check_div_obligations("finite")
-    ref = gen_map(H, R, step / m)
+    if gen is None:
+        ref = gen_map(H, R, step / m)
+    else:
+        from harness.C02 import taylor
+        ref = numpy.zeros((N, N, N, N), dtype=object)
+        for n in range(N):
+            for k in range(N):
+                E = numpy.zeros((N, N), dtype=object)
+                E[...] = 0
+                E[n, k] = 1
+                ref[:, :, n, k] = taylor(gen, E, step / m, 4)
     cx.prove_eq("step_is_taylor_map", A, ref)
     cx.prove_eq("trace_preserving", numpy.einsum("aacd->cd", A), numpy.eye(N, dtype=int))
     cx.prove_eq("hermiticity_preserving", numpy.conj(A), numpy.transpose(A, (1, 0, 3, 2)))
